@@ -20,7 +20,8 @@
    [interrupting] and [skipUploadCommand] are only ever set by an uploadDragFiles goroutine,
    which only exists after such a drag list (or the UploadFiles API): [idle] excludes them and
    [C05_session_invariant] shows they cannot appear otherwise. *)
-From Trzsz Require Import Base.Bytes Gen.Consts Gen.Skel_filter Model.Filter Proofs.Filter.
+From Trzsz Require Import Base.Bytes Gen.Consts Gen.Skel_filter Model.Filter Proofs.Filter Proofs.FilterDrag.
+From Trzsz Require Model.Detector.
 
 (* ---- output direction: every chunk list, chunk-exact, exactly once, state stays idle ---- *)
 Theorem C05_out_transparent :
@@ -331,4 +332,82 @@ Proof. vm_compute. auto. Qed.
 Example C05_fixed_hands_keyboard_back :
   prompt (fst (wit_run ex_opts wit_history)) = PClosing /\
   server_writes (snd (wit_run ex_opts (wit_history ++ [EvPromptEnd; EvIn [120]]))) = [[120]].
+Proof. vm_compute. auto. Qed.
+
+
+(* ======================================================================================= *)
+(* every way a drag-and-drop can be called off or finish (third round, seeds pc05-2/pc05-1) *)
+
+(* a drop, then within the 300 ms window a chunk that is not a path list (any key): that chunk
+   reaches the server, the upload goroutine wakes up, finds nothing to upload and leaves NO
+   trace: nothing else is written and the wrapper is idle - [interrupting] is not left set *)
+Theorem C05_drag_called_off :
+  forall dstate trigger detect trig_prompts zmodem_detect zstate zm_init zm_handle zm_busy zm_stop
+         drag_detect msg_on msg_off is_stop_key o (s : state dstate zstate) c1 c2 fs hd s' ob,
+  idle s = true -> detect_on s = true ->
+  d_files (drag_detect c1) = Some (fs, hd) ->
+  d_files (drag_detect c2) = None -> d_win (drag_detect c2) = false -> d_ignore (drag_detect c2) = false ->
+  run dstate trigger detect trig_prompts zmodem_detect zstate zm_init zm_handle zm_busy zm_stop
+      drag_detect msg_on msg_off is_stop_key o s [EvIn c1; EvIn c2; EvDrag 0] = (s', ob) ->
+  ob = [ToServer c2] /\ idle s' = true.
+Proof. exact drag_called_off. Qed.
+Print Assumptions C05_drag_called_off.
+
+(* a drop and nothing else: exactly ctrl-C and the upload command reach the server; afterwards
+   only the echo-suppression flag (with the command) is left, everything else is idle again *)
+Theorem C05_drag_upload_completes :
+  forall dstate trigger detect trig_prompts zmodem_detect zstate zm_init zm_handle zm_busy zm_stop
+         drag_detect msg_on msg_off is_stop_key o (s : state dstate zstate) c1 fs hd s' ob,
+  idle s = true -> detect_on s = true -> drag_files s = None ->
+  d_files (drag_detect c1) = Some (fs, hd) ->
+  run dstate trigger detect trig_prompts zmodem_detect zstate zm_init zm_handle zm_busy zm_stop
+      drag_detect msg_on msg_off is_stop_key o s [EvIn c1; EvDrag 0; EvDrag 0; EvDrag 0] = (s', ob) ->
+  let cmd := (match o_cmd o with [] => drag_default_cmd | c => c end) ++
+             (if (if hd then true else drag_has_dir s) && negb (o_cmd_not_trz o) then drag_dir_flag else []) in
+  ob = [ToServer [drag_interrupt_byte]; ToServer (cmd ++ drag_cmd_end)] /\
+  skip_cmd s' = true /\ cur_cmd s' = Some cmd /\ idle (set_skip_cmd false s') = true /\
+  dragging s' = false /\ drag_files s' = None.
+Proof. exact drag_upload_completes. Qed.
+Print Assumptions C05_drag_upload_completes.
+
+(* while a transfer owns the streams a dropped path list is a key like any other *)
+Theorem C05_typed_during_transfer :
+  forall dstate zstate zm_busy zm_stop drag_detect is_stop_key o (s : state dstate zstate) c s' ob,
+  transfer s = true ->
+  in_step dstate zstate zm_busy zm_stop drag_detect is_stop_key o s c = (s', ob) ->
+  ob = [] /\ transfer s' = true /\
+  dragging s' = dragging s /\ drag_files s' = drag_files s /\ drag_procs s' = drag_procs s /\
+  interrupting s' = interrupting s /\ skip_cmd s' = skip_cmd s /\ held s' = held s.
+Proof. exact typed_during_transfer. Qed.
+Print Assumptions C05_typed_during_transfer.
+
+(* a trigger that is displayed again: with the detector model of C06 in place of the abstract
+   detector.  After ANY earlier calls, a chunk whose trigger id is dedup-eligible and among the
+   last 52 accepted ids passes through untouched and starts nothing. *)
+Theorem C05_redisplayed_trigger_inert :
+  forall winenv calls d acc trig_prompts zmodem_detect zstate zm_init zm_handle (drag_detect : list N -> dres) msg_on msg_off o
+         (s s' : state Detector.idmap zstate) c ob,
+  Detector.hist_run winenv (Detector.new_det false false) calls = (d, acc) ->
+  idle s = true -> Filter.det s = Detector.d_map d ->
+  (forall out tr d', Detector.detect winenv d false c = (out, Some tr, d') ->
+     Detector.dedup_eligible winenv (Detector.t_id tr) = true /\ In (Detector.t_id tr) (firstn Detector.replay_window acc)) ->
+  trace_fires Detector.idmap zstate o s c = false -> o_zmodem o && zmodem_detect c = false ->
+  out_step Detector.idmap Detector.trigger (c05_client_detect winenv) trig_prompts zmodem_detect zstate zm_init zm_handle
+           msg_on msg_off o s c = (s', ob) ->
+  term_writes ob = [c] /\ server_writes ob = [] /\ idle s' = true /\ handlers s' = [].
+Proof. exact redisplayed_trigger_inert. Qed.
+Print Assumptions C05_redisplayed_trigger_inert.
+
+(* non-vacuity, and why the Windows environment matters: the line a Linux trz prints (id ending
+   in 00) shown a second time.  With isWindowsEnvironment() the id is remembered and the second
+   display is silent; without it ids of 13 digits ending in 00 are not remembered (by design: on
+   Linux the terminal does not re-send old output) and the line fires again - which is what the
+   wrapper configured with SetAffectedByWindows(true) must NOT do. *)
+Example C05_redisplay_example :
+  let line := Detector.trigger_line 82 (1, 1, 6) 1700000000100 0 in
+  let after w := fst (Detector.hist_run w (Detector.new_det false false) [(false, line)]) in
+  (Detector.dedup_eligible true [49;55;48;48;48;48;48;48;48;48;49;48;48] = true) /\
+  snd (fst (Detector.detect true (after true) false line)) = None /\
+  fst (fst (Detector.detect true (after true) false line)) = line /\
+  (match snd (fst (Detector.detect false (after false) false line)) with Some _ => true | None => false end) = true.
 Proof. vm_compute. auto. Qed.
